@@ -6,6 +6,7 @@
 import Edn.Proofs.Number
 import Edn.Proofs.NumberReader
 import Edn.Proofs.NumberSound
+import Edn.Proofs.CljNumberSound
 
 namespace Edn.Properties.C04
 open Edn.Model Edn.Proofs
@@ -82,6 +83,28 @@ theorem core_number_reader_is_the_grammar (s rest : Bytes) (v : NumVal)
     readNumber Cfg.core s = .ok v rest ↔
       ∃ tok, s = tok ++ rest ∧ Edn.Spec.CoreNum Cfg.core tok v ∧ Edn.Spec.TermStart rest :=
   readNumber_core_iff s rest v hstart
+
+/-- Exactness with the Clojure flag (either setting of the experimental flag): the number reader
+    returns a payload and a continuation **iff** the bytes consumed are a token of `Edn.Spec.CljNum`
+    (decimal, `N`, float, `M`, ratio, `0/n`, hexadecimal, octal, `NrDDD`; with the experimental flag
+    `_` separators inside digit runs) denoting that payload, followed by a terminator - or, for a
+    ratio that denotes an integer, by any delimiter byte (`Edn.Spec.CljNumEnd`: the early returns of
+    the ratio branch do not re-validate the terminator, so `4/2\a` reads as 2 and `\a`). -/
+theorem clj_number_reader_is_the_grammar (cfg : Cfg) (hc : cfg.clj = true) (s rest : Bytes) (v : NumVal)
+    (hstart : ∃ c t, s = c :: t ∧ (is09 c = true ∨ ((c = 0x2B ∨ c = 0x2D) ∧ ∃ nx t', t = nx :: t' ∧ is09 nx = true))) :
+    readNumber cfg s = .ok v rest ↔
+      ∃ tok, s = tok ++ rest ∧ Edn.Spec.CljNum cfg tok v ∧ Edn.Spec.CljNumEnd tok v rest :=
+  readNumber_clj_iff cfg hc s rest v hstart
+
+/-- the Clojure-flag grammar contains the core grammar with the same payloads … -/
+theorem clj_grammar_extends_core (cfg : Cfg) (tok : Bytes) (v : NumVal) (h : Edn.Spec.CoreNum cfg tok v) :
+    Edn.Spec.CljNum cfg tok v :=
+  cljNum_of_coreNum cfg tok v h
+
+/-- … and without the experimental flag no accepted number token contains a `_` -/
+theorem no_separator_without_experimental_flag (cfg : Cfg) (he : cfg.exp = false) (tok : Bytes) (v : NumVal)
+    (h : Edn.Spec.CljNum cfg tok v) : (0x5F : UInt8) ∉ tok :=
+  cljNum_no_separator cfg he tok v h
 
 /-- non-vacuity: `-12 ` is the integer -12, read up to the space -/
 example : readNumber Cfg.core "-12 ".toUTF8.toList = .ok (.int (-12)) " ".toUTF8.toList := by decide +kernel
